@@ -107,7 +107,8 @@ class VMX:
 
         for vm_setting, value in self.attr.items():
             for dev_class in dev_classes:
-                if vm_setting.startswith(dev_class) and "." in vm_setting:
+                # A device name is the class followed by the bus number, e.g. scsi0 or scsi0:1
+                if vm_setting.startswith(dev_class) and "." in vm_setting and vm_setting[len(dev_class)].isdigit():
                     # Properties for disk devices are formatted as
                     # <dev_class><bus_id>:<disk_id>.<dev_property>
                     #
